@@ -10,6 +10,10 @@ C06.c read-fragmentation handling is exhaustive: the result of each `read` in th
   Ok(0) (end), Ok(n), Err(Interrupted) (retry) and any other error (reported as an item).
 C06.d one byte in, one byte hashed: the byte pushed to the chunk and the byte fed to the rolling hash are the same
   value, and the buffer position advances by one on that path.
+C06.f carried bytes count towards the minimum: the limit of the initial bulk read (`take`) is computed from min_size AND
+  the number of bytes carried over in the read-ahead buffer (buf.len() - pos), and the short-read test compares the
+  bytes read against that same limit. Otherwise the position where the cut-point search starts depends on where the
+  previous cut fell inside the 4 KiB read buffer, i.e. on read history instead of content.
 C06.e the fixed-size chunker reads at most `size` bytes per chunk and stops at a short read.
 """
 import re
@@ -28,7 +32,8 @@ NOT_DECIDED = ["concatenation of chunks equals the stream; independence from rea
 def run(ctx, rep):
     prog = ctx.prog
     for r, tx in (("C06.a", "chunker arithmetic cannot trap for accepted parameters"), ("C06.b", "max_size is tested before every push"),
-                  ("C06.c", "read results are handled exhaustively"), ("C06.d", "the pushed byte is the hashed byte"), ("C06.e", "fixed-size chunks are bounded by `size`")):
+                  ("C06.c", "read results are handled exhaustively"), ("C06.d", "the pushed byte is the hashed byte"), ("C06.e", "fixed-size chunks are bounded by `size`"),
+                  ("C06.f", "bytes carried in the read-ahead buffer count towards min_size")):
         rep.rule(r, tx)
     from rules import arith
     arith.run_c06(ctx, rep)
@@ -106,6 +111,7 @@ def run(ctx, rep):
         rep.check("C06.c", "ok-zero-arm", has_ok0, where=where(NX, rb), what="a read of 0 bytes ends the stream (finished)")
         rep.check("C06.c", "interrupted-retried", bool(kind_calls) and intr, where=where(NX, rb), what="ErrorKind::Interrupted is retried (continue), not reported and not treated as end of input")
         rep.check("C06.c", "other-errors-reported", any(e in after for e in errs), where=where(NX, rb), what="any other read error is returned as an error item")
+    carry_rule(ctx, rep, "C06.f")
     # ---- C06.e -------------------------------------------------------------------------------------
     FX = prog.find1(r"^<rustic_core::chunker::fixed_size::ChunkIter<R> as std::iter::Iterator>::next$")
     take = [(bb, t) for bb, t in FX.calls() if "callee" in t and callee_decl(t).endswith("std::io::Read::take")]
@@ -122,3 +128,31 @@ def run(ctx, rep):
             if e[0] == "bin" and e[1] in ("Lt", "Gt", "Le", "Ge") and "size" in repr(e):
                 okf = True
     rep.check("C06.e", "short-read-ends", okf, where=FX.loc(), what="a read shorter than `size` marks the iterator finished (last chunk may be shorter)")
+
+
+def carry_rule(ctx, rep, R):
+    prog = ctx.prog
+    NX = prog.find1(r"^<rustic_core::chunker::rabin::ChunkIter<R> as std::iter::Iterator>::next$")
+    # ---- C06.f -------------------------------------------------------------------------------------
+    takes = [(bb, t) for bb, t in NX.calls() if "callee" in t and callee_decl(t).endswith("std::io::Read::take")]
+    rep.require(R, "bulk-read-site", len(takes) == 1, where=NX.loc(), what="the chunk's first min_size bytes are read through one take(limit)")
+    if len(takes) == 1:
+        tb, tt = takes[0]
+        lf, _ = flow.expr_mentions(flow.expr_of(NX, tt["args"][1], tb))
+        sl = {"fields": lf}
+        okc = {"min_size", "buf", "pos"} <= lf
+        rep.check(R, "limit-accounts-for-carry", okc, where=where(NX, tb), what="take limit = min_size - (buf.len() - pos): carried bytes count towards the minimum chunk size" if okc else
+                  f"the bulk read limit does not depend on the carried bytes (fields used: {sorted(sl['fields'] & {'min_size', 'buf', 'pos'})}): cut positions depend on read-buffer alignment, not only on content")
+        # the short-read test compares the count returned by read_to_end with the same limit
+        lim = flow.base_local(NX, op_place(tt["args"][1])) if op_place(tt["args"][1]) else None
+        oks = False
+        for sw in range(len(NX.blocks)):
+            t = NX.term(sw)
+            if t["k"] != "switch":
+                continue
+            e = flow.expr_of(NX, t["discr"])
+            if e[0] == "bin" and e[1] in ("Lt", "Gt", "Le", "Ge") and "read_to_end" in repr(e):
+                for o in (e[2], e[3]):
+                    if o == flow.expr_of(NX, tt["args"][1], tb):
+                        oks = True
+        rep.check(R, "short-read-vs-limit", oks, where=where(NX, tb), what="end of input is detected by comparing the bytes read with the same limit that was requested")
